@@ -165,6 +165,7 @@ func AssembleFile(ctx context.Context, name string, idx Index, s Store, seeds []
 		defer f.Close()
 		g.Go(func() error {
 			for job := range in {
+				verifYield("AssembleFile.job")
 				pb.Add(job.segment.lengthChunks())
 				if job.source != nil {
 					// If we have a seedSegment we expect 1 or more chunks between
@@ -176,6 +177,7 @@ func AssembleFile(ctx context.Context, name string, idx Index, s Store, seeds []
 					if err != nil {
 						return err
 					}
+					verifYield("AssembleFile.written")
 
 					// Validate that the written chunks are exactly what we were expecting.
 					// Because the seed might point to a RW location, if the data changed
